@@ -262,6 +262,17 @@ func traceConc(o opts) error {
 				}()
 			}
 		}
+		{
+			var ps []string
+			for t, pr := range progs {
+				var ks []string
+				for _, op := range pr {
+					ks = append(ks, fmt.Sprintf("%s %s v%d", op.kind, op.name, op.ver))
+				}
+				ps = append(ps, fmt.Sprintf("t%d: %s", t, strings.Join(ks, ", ")))
+			}
+			note("hist=%d via=%s seed state %s; concurrent programs %s", h, via, seedState, strings.Join(ps, " | "))
+		}
 		close(start)
 		wg.Wait()
 		close(stopHammer)
